@@ -17,6 +17,9 @@ theorem norm_freeze : ∀ v : PyVal, (freeze v).norm = v.norm
   | .set xs => by simp only [freeze, norm, normList_freezeList xs]
   | .list xs => by simp only [freeze, norm, normList_freezeList xs]
   | .tuple xs => by simp only [freeze, norm, normList_freezeList xs]
+  | .setlike xs => by simp only [freeze, norm, normList_freezeList xs]
+  | .seqlike xs => by simp only [freeze, norm, normList_freezeList xs]
+  | .maplike kvs => by simp only [freeze, norm, normKVs_freezeKVs kvs]
   | .frozenset _ => rfl
 theorem normList_freezeList : ∀ xs : List PyVal, normList (freezeList xs) = normList xs
   | [] => rfl
@@ -38,6 +41,9 @@ theorem freeze_idem : ∀ v : PyVal, freeze (freeze v) = freeze v
   | .set _ => rfl
   | .list xs => by simp only [freeze, freezeList_idem xs]
   | .tuple xs => by simp only [freeze, freezeList_idem xs]
+  | .setlike _ => rfl
+  | .seqlike xs => by simp only [freeze, freezeList_idem xs]
+  | .maplike kvs => by simp only [freeze, freezeKVs_idem kvs]
   | .frozenset _ => rfl
 theorem freezeList_idem : ∀ xs : List PyVal, freezeList (freezeList xs) = freezeList xs
   | [] => rfl
@@ -57,6 +63,9 @@ theorem freeze_of_isFrozen : ∀ v : PyVal, v.isFrozen = true → freeze v = v
   | .dict _, h => by simp [isFrozen] at h
   | .set _, h => by simp [isFrozen] at h
   | .list _, h => by simp [isFrozen] at h
+  | .setlike _, h => by simp [isFrozen] at h
+  | .seqlike _, h => by simp [isFrozen] at h
+  | .maplike _, h => by simp [isFrozen] at h
   | .frozendict kvs, h => by
       simp only [isFrozen] at h
       simp only [freeze, freezeKVs_of_isFrozen kvs h]
@@ -101,6 +110,15 @@ theorem isFrozen_freeze : ∀ v : PyVal, v.supported = true → (freeze v).isFro
   | .tuple xs, h => by
       simp only [supported] at h
       simp only [freeze, isFrozen, isFrozenList_freezeList xs h]
+  | .setlike xs, h => by
+      simp only [supported] at h
+      simp only [freeze, isFrozen, isFrozenList_freezeList xs h]
+  | .seqlike xs, h => by
+      simp only [supported] at h
+      simp only [freeze, isFrozen, isFrozenList_freezeList xs h]
+  | .maplike kvs, h => by
+      simp only [supported] at h
+      simp only [freeze, isFrozen, isFrozenKVs_freezeKVs kvs h]
 theorem isFrozenList_freezeList : ∀ xs : List PyVal, supportedList xs = true →
     isFrozenList (freezeList xs) = true
   | [], _ => rfl
@@ -145,6 +163,9 @@ theorem supported_of_isFrozen : ∀ v : PyVal, v.isFrozen = true → v.supported
   | .dict _, h => by simp [isFrozen] at h
   | .set _, h => by simp [isFrozen] at h
   | .list _, h => by simp [isFrozen] at h
+  | .setlike _, h => by simp [isFrozen] at h
+  | .seqlike _, h => by simp [isFrozen] at h
+  | .maplike _, h => by simp [isFrozen] at h
   | .frozendict kvs, h => by
       simp only [isFrozen] at h
       simp only [supported, supportedKVs_of_isFrozen kvs h]
